@@ -785,7 +785,7 @@ func (f *gov) genPool(s *sc) {
 func (f *gov) genVotes(s *sc) {
 	r := s.r
 	r.Rule("histories = N = 1..13 validators, 3 vote ids and 2 signature subjects, 30 seeded votes/signatures by validators, repeat voters, outsiders and missing witnesses with validator-set changes (quit, candidate approval, commitDpos) in between; distinct non-trivial = releases by (kind, N)")
-	nHist := r.Pick(260, 5200)
+	nHist := r.Pick(156, 3900)
 	for h := 0; h < nHist; h++ {
 		n := 1 + h%13
 		s.start(fmt.Sprintf("votes-N%d-%d", n, h), n, 2, 100000)
@@ -798,6 +798,8 @@ func (f *gov) genVotes(s *sc) {
 		deposits := []string{depositTok(3, 100, makeTxExtra(cc, 1)), depositTok(3, 101, makeTxExtra(cc, 2)),
 			depositTok(4, 100, makeTxExtra(cc, 1)), depositTok(3, 7, r.Rng.Bytes(5)), depositTok(3, 100, makeTxExtra(r.Rng.Bytes(8), 3))}
 		var prev actor
+		clock := uint32(1000)
+		s.do("time %d", clock)
 		if h%3 == 0 && n >= 2 {
 			// directed: a pool member that is not (yet) a consensus member votes when one vote is missing
 			cand := s.extra[0]
@@ -837,7 +839,23 @@ func (f *gov) genVotes(s *sc) {
 				f.poolChange(s)
 			}
 			sg, c := s.approver(&prev)
-			if r.Rng.Chance(1, 4) {
+			if r.Rng.Chance(1, 5) {
+				// fee proposals (UpdateFee votes through CheckVotes): current view mostly, sometimes a stale one;
+				// the clock moves, so that some rounds expire
+				if r.Rng.Chance(1, 6) {
+					clock += uint32(r.Rng.Intn(400))
+					s.do("time %d", clock)
+				}
+				chain := 3 + r.Rng.Intn(2)
+				view := uint64(0)
+				if fe, ok := f.w.now().fee[fmt.Sprintf("%020d", chain)]; ok {
+					view = idNum(strings.SplitN(fe, ":", 2)[0])
+				}
+				if r.Rng.Chance(1, 8) {
+					view += uint64(r.Rng.Intn(3))
+				}
+				s.do("fee %s %s %d %d %d", sg, c, chain, view, r.Rng.Intn(5)*1000+r.Rng.Intn(3))
+			} else if r.Rng.Chance(1, 4) {
 				d := deposits[r.Rng.Intn(len(deposits))]
 				s.do("deposit %s %s %s", sg, c, d)
 			} else if r.Rng.Chance(3, 5) {
@@ -858,6 +876,13 @@ func (f *gov) genVotes(s *sc) {
 		}
 		for _, d := range deposits {
 			s.fullRound(func(sg, c string) string { return fmt.Sprintf("deposit %s %s %s", sg, c, d) })
+		}
+		for round := 0; round < 2; round++ {
+			view := uint64(0)
+			if fe, ok := f.w.now().fee["00000000000000000003"]; ok {
+				view = idNum(strings.SplitN(fe, ":", 2)[0])
+			}
+			s.fullRound(func(sg, c string) string { return fmt.Sprintf("fee %s %s 3 %d %d", sg, c, view, 100+r.Rng.Intn(900)) })
 		}
 		s.do("dump")
 	}
